@@ -279,10 +279,12 @@ func (g *typeGen) fill(v reflect.Value, depth int, mode string) {
 		case r.Intn(4) == 0:
 			bits := uint(v.Type().Bits())
 			max := uint64(1)<<(bits-1)*2 - 1
-			if bits == 64 {
-				max = 1<<63 - 1 // simple data has int64 only: larger values are not generated
+			// (64-bit fields reach beyond MaxInt64: every encoder has to write them as unsigned numbers)
+			pick := []uint64{max, max / 2, max/2 + 1, 255, 256, 257, 65535, 65536, 4294967295, 4294967296}[r.Intn(10)]
+			if max+1 != 0 {
+				pick %= max + 1
 			}
-			v.SetUint([]uint64{max, max / 2, max/2 + 1, 255, 256, 257, 65535, 65536, 4294967295, 4294967296}[r.Intn(10)] % (max + 1))
+			v.SetUint(pick)
 			if full && v.Uint() == 0 {
 				v.SetUint(max)
 			}
